@@ -791,6 +791,55 @@ func findOwnerCtors(prog *core.Program) []ownerCtor {
 			}
 		}
 	}
+	// starter methods: `func (x *T) start() { go x.run() }` — a constructor that calls one on the value it
+	// returns is an owner constructor as well
+	starters := map[*ssa.Function]*ssa.Function{} // starter -> goroutine body
+	for _, sp := range sortedSSAPkgs(prog) {
+		for fn := range allFuncsOf(prog, sp) {
+			if fn.Signature.Recv() == nil || len(fn.Params) == 0 {
+				continue
+			}
+			for _, b := range fn.Blocks {
+				for _, ins := range b.Instrs {
+					if g, ok := ins.(*ssa.Go); ok {
+						if callee := g.Call.StaticCallee(); callee != nil && callee.Signature.Recv() != nil && len(g.Call.Args) > 0 && g.Call.Args[0] == fn.Params[0] {
+							starters[fn] = callee
+						}
+					}
+				}
+			}
+		}
+	}
+	if len(starters) > 0 {
+		for _, sp := range sortedSSAPkgs(prog) {
+			for fn := range allFuncsOf(prog, sp) {
+				for _, b := range fn.Blocks {
+					for _, ins := range b.Instrs {
+						call, ok := ins.(*ssa.Call)
+						if !ok {
+							continue
+						}
+						body, isStarter := starters[call.Call.StaticCallee()]
+						if !isStarter || len(call.Call.Args) == 0 {
+							continue
+						}
+						recv := call.Call.Args[0]
+						for _, b2 := range fn.Blocks {
+							for _, i2 := range b2.Instrs {
+								if ret, ok := i2.(*ssa.Return); ok {
+									for _, res := range ret.Results {
+										if res == recv {
+											out = append(out, ownerCtor{fn: fn, owner: recv.Type(), body: body})
+										}
+									}
+								}
+							}
+						}
+					}
+				}
+			}
+		}
+	}
 	sort.Slice(out, func(i, j int) bool { return out[i].fn.String() < out[j].fn.String() })
 	return out
 }
